@@ -10,7 +10,8 @@ EXTENDS Naturals, Sequences, TLC, Json, IOUtils
 CONSTANT Active
 Traces == JsonDeserialize(IOEnv.TRACE_FILE)
 VARIABLES tid, phase
-Verdict(T) == IF T.m = T.c THEN <<>> ELSE << [e |-> 1, c |-> "DRIFT." \o T.label] >>
+\* compared through their JSON text: total even when the code side holds an outcome string ("raise:...") where the model holds a number
+Verdict(T) == IF ToJson(T.m) = ToJson(T.c) THEN <<>> ELSE << [e |-> 1, c |-> "DRIFT." \o T.label] >>
 Init == tid \in 1..Len(Traces) /\ phase = "call"
 Judge == /\ phase = "call" /\ phase' = "judged"
          /\ PrintT("@@V " \o ToJson([tid |-> tid, n |-> 1, fails |-> Verdict(Traces[tid])]))
